@@ -551,12 +551,13 @@ def _match(a, b):
 
 
 class State:
-    __slots__ = ('frames', 'C', 'seeded', 'assigned', 'tmp', 'nextcnt', 'cmp')
+    __slots__ = ('frames', 'C', 'seeded', 'hard', 'assigned', 'tmp', 'nextcnt', 'cmp')
 
     def __init__(self):
         self.frames = [{}]
         self.C = {}
-        self.seeded = False
+        self.seeded = False         # False | True | 'if:<param>' (seeded iff that parser parameter carries a seed action)
+        self.hard = False           # same, without the contract assumption of `if seed is not None:` guards
         self.assigned = [set()]
         self.tmp = {}
         self.nextcnt = {}
@@ -567,6 +568,7 @@ class State:
         s.frames = [dict(f) for f in self.frames]
         s.C = {k: set(v) for k, v in self.C.items()}
         s.seeded = self.seeded
+        s.hard = self.hard
         s.assigned = [set(a) for a in self.assigned]
         s.tmp = dict(self.tmp)
         s.nextcnt = dict(self.nextcnt)
@@ -581,7 +583,8 @@ class State:
                 f[k] = v.join(f.get(k)) if k in f else v
         for k, v in o.C.items():
             self.C.setdefault(k, set()).update(v)
-        self.seeded = self.seeded and o.seeded
+        self.seeded = seed_meet(self.seeded, o.seeded)
+        self.hard = seed_meet(self.hard, o.hard)
         self.cmp = self.cmp & o.cmp
         self.assigned = [a & b for a, b in zip(self.assigned, o.assigned)]
         for k in set(self.tmp) | set(o.tmp):
@@ -597,7 +600,7 @@ class State:
         return self
 
     def same(self, o):
-        if o is None or self.seeded != o.seeded or self.assigned != o.assigned or self.tmp != o.tmp:
+        if o is None or self.seeded != o.seeded or self.hard != o.hard or self.assigned != o.assigned or self.tmp != o.tmp:
             return False
         for f, g in zip(self.frames, o.frames):
             if f.keys() != g.keys():
@@ -608,6 +611,27 @@ class State:
         if self.C.keys() != o.C.keys():
             return False
         return all(self.C[k] == o.C[k] for k in self.C)
+
+
+def seed_meet(a, b):
+    if a is None:
+        return b
+    if b is None:
+        return a
+    if a == b:
+        return a
+    if a is True:
+        return b
+    if b is True:
+        return a
+    return False
+
+
+def seed_then(cur, new):
+    """typestate after a further (possibly conditional) seeding"""
+    if cur is True or new is True:
+        return True
+    return cur or new
 
 
 def join_states(a, b):
@@ -629,6 +653,12 @@ class Summary:
         self.uses_rng = None
         self.seeds_rng = None
         self.unseeded = {}     # callee label -> witness
+        self.cond_unseeded = {}  # (parser param, label) -> witness: unseeded unless that parser carries a seed action
+        self.free_use = None     # an RNG use not dominated by an unconditional seeding inside this function (for callers)
+        self.cond_use = {}       # (parser param, label) -> witness: same, dominated only if that parser seeds
+        self.exit_hard = None    # RNG state on every normal exit: None (no normal exit) | True | False | 'if:<param>'
+        self.seed_params = set() # parameters passed directly to random.seed
+        self.reg_tier = set()    # (action class id, 'site:<parser allocation>' | 'sub' | 'param:<p>' | 'unknown')
         self.guards = []       # (line, exact, text)
         self.nondet = {}       # (source, origin_fid) -> witness
         self.tmp_leaks = {}
@@ -644,6 +674,7 @@ class Summary:
         return (frozenset(self.mut), frozenset((k, frozenset(v)) for k, v in self.capture.items()),
                 frozenset(self.ret), frozenset(self.ret_edges), frozenset(self.ret_types),
                 frozenset(self.raises), bool(self.uses_rng), bool(self.seeds_rng), frozenset(self.unseeded),
+                frozenset(self.cond_unseeded), bool(self.free_use), frozenset(self.cond_use), self.exit_hard, frozenset(self.seed_params), frozenset(self.reg_tier),
                 frozenset(self.nondet), frozenset(self.tmp_leaks), frozenset(self.unbound),
                 bool(self.calls_parse_args), frozenset(self.registers), frozenset(self.validators),
                 frozenset(self.asserts))
@@ -911,7 +942,17 @@ class Interp:
     def use_rng(self, label, w):
         if self.S.uses_rng is None:
             self.S.uses_rng = tuple(w)[:MAXCHAIN]
-        if not self.st.seeded:
+        hd = self.st.hard
+        if isinstance(hd, str):
+            self.S.cond_use.setdefault((hd[3:], label), tuple(w)[:MAXCHAIN])
+        elif hd is not True and self.S.free_use is None:
+            self.S.free_use = tuple(w)[:MAXCHAIN]
+        sd = self.st.seeded
+        if sd is True:
+            return
+        if isinstance(sd, str):
+            self.S.cond_unseeded.setdefault((sd[3:], label), tuple(w)[:MAXCHAIN])
+        else:
             self.S.unseeded.setdefault(label, tuple(w)[:MAXCHAIN])
 
     def nondet(self, src, origin, w):
@@ -959,6 +1000,7 @@ class Interp:
             body = fi.node.body
         self.block(body)
         if self.st is not None:
+            self.S.exit_hard = seed_meet(self.S.exit_hard, self.st.hard)
             self.check_leaks(fi.node.body[-1] if body else fi.node, 'function ends')
         self.finish()
         return self.S
@@ -1082,6 +1124,7 @@ class Interp:
         else:
             self.returns.append((av, {k: set(v) for k, v in self.st.C.items()}))
             self.check_leaks(s, 'return')
+            self.S.exit_hard = seed_meet(self.S.exit_hard, self.st.hard)
         self.st = None
 
     def s_Delete(self, s):
@@ -1203,10 +1246,11 @@ class Interp:
                     self.assign(x, v, node, None)
             else:
                 el = AV(self.ch(av.o, '[]'), {x for x in av.t if x.startswith(('func:', 'cls:', 'sub:', 'class:'))}, av.why)
-                for x in t.elts:
+                for i, x in enumerate(t.elts):
                     if isinstance(x, ast.Starred):
                         x = x.value
-                    self.assign(x, el, node, None)
+                    pos = {tg.split(':', 2)[2] for tg in av.t if tg.startswith('pos:{}:'.format(i))}
+                    self.assign(x, AV(el.o, el.t | pos, el.why) if pos else el, node, None)
         elif isinstance(t, ast.Attribute):
             tv = self.ev(t.value)
             self.store(tv, t.attr, av, node)
@@ -1386,7 +1430,7 @@ class Interp:
         self.block(s.orelse)
         self.guard_tests.pop()
         else_end = self.st
-        body_seeds = body_end is not None and body_end.seeded and not seeded_before
+        body_seeds = body_end is not None and body_end.seeded is True and seeded_before is not True
         if is_seed and body_seeds:
             self.S.guards.append((s.lineno, exact, txt, self.site(s)))
         self.st = join_states(body_end, else_end) if not (body_end is None and else_end is None) else None
@@ -1709,7 +1753,14 @@ class Interp:
         return self._container(e, e.elts, 'list')
 
     def e_Tuple(self, e):
-        return self._container(e, e.elts, 'tuple')
+        r = self._container(e, e.elts, 'tuple')
+        extra = set()
+        for i, x in enumerate(e.elts):
+            if isinstance(x, ast.Name):
+                v = self.lookup(x.id)
+                if v is not None:
+                    extra |= {'pos:{}:{}'.format(i, t) for t in v.t if t.startswith('parser@')}
+        return AV(r.o, r.t | extra) if extra else r
 
     def e_Set(self, e):
         return self._container(e, e.elts, 'set')
@@ -2082,6 +2133,8 @@ class Interp:
                     self.add_edge(s, v.o, ('*',), None)
             if self.ix.is_exception_class(ci):
                 return AV({(s, ())}, {'cls:' + ci.cid, 'exc:' + ci.name})
+            if any(n.endswith('ArgumentParser') for n in self.ix.ext_bases(ci)):
+                return AV(selfav.o, selfav.t | {'parser@{}:{}'.format(self.cur.rel, node.lineno)})
             return selfav
         if kind == 'lambda':
             lam = self.A.lambdas.get(t[1])
@@ -2146,7 +2199,35 @@ class Interp:
         if summ.seeds_rng and self.S.seeds_rng is None:
             self.S.seeds_rng = (w0,) + tuple(summ.seeds_rng)
         if summ.uses_rng:
-            self.use_rng(g.qual, (w0,) + tuple(summ.uses_rng))
+            # uses inside the callee that it proved dominated by its own (possibly parser-conditional) seeding are
+            # not charged again; `unseeded` / `cond_unseeded` of the callee are what is left
+            if self.S.uses_rng is None:
+                self.S.uses_rng = ((w0,) + tuple(summ.uses_rng))[:MAXCHAIN]
+            if summ.free_use:
+                self.use_rng(g.qual, (w0,) + tuple(summ.free_use))
+            for (p, label), w in summ.cond_use.items():
+                how = self.parser_seeds(argmap.get(p))
+                if how is True:
+                    continue            # that parser seeds before its sub-parsers' actions run
+                saved = (self.st.seeded, self.st.hard)
+                if isinstance(how, str):
+                    self.st.seeded = seed_then(self.st.seeded, how)
+                    self.st.hard = seed_then(self.st.hard, how)
+                self.use_rng(label, (w0,) + tuple(w))
+                self.st.seeded, self.st.hard = saved
+        eh = summ.exit_hard
+        if isinstance(eh, str):
+            eh = self.parser_seeds(argmap.get(eh[3:]))
+        if eh and not g.is_gen:
+            self.st.seeded = seed_then(self.st.seeded, eh)
+            self.st.hard = seed_then(self.st.hard, eh)
+        for (cid, tier) in summ.reg_tier:
+            if tier.startswith('param:'):
+                av = argmap.get(tier[6:])
+                for t2 in (self.parser_tiers(av) if av is not None else {'unknown'}):
+                    self.S.reg_tier.add((cid, t2))
+            else:
+                self.S.reg_tier.add((cid, tier))
         for (src, origin), w in summ.nondet.items():
             self.nondet(src, origin, (w0,) + tuple(w))
         if summ.calls_parse_args and self.S.calls_parse_args is None:
@@ -2227,12 +2308,44 @@ class Interp:
         return res
 
     # ---- argparse ----------------------------------------------------------------------------------
+    def parser_seeds(self, av):
+        """does parse_args on this parser value seed the RNG before any RNG-using action runs?
+        True | False | 'if:<param>' (decided by the caller that knows which parser the parameter is)"""
+        if av is None:
+            return False
+        ids = {t[7:] for t in av.t if t.startswith('parser@')}
+        params = {r[1] for (r, path) in av.o if r[0] == 'p' and path == ()}
+        other = [o for o in av.o if not (o[0][0] == 'p' and o[1] == ()) and o[0][0] != 's']
+        if ids and not params:
+            good = self.A.ctx_seed_parsers or set()
+            return all(i in good for i in ids)
+        if len(params) == 1 and not ids and not other and 'parsersub' not in av.t:
+            (p,) = params
+            if p in self.fi.params:
+                return 'if:' + p
+        return False
+
+    def parser_tiers(self, av):
+        tiers = {'site:' + t[7:] for t in av.t if t.startswith('parser@')}
+        if 'parsersub' in av.t:
+            tiers.add('sub')
+        for (r, path) in av.o:
+            if r[0] == 'p' and path == () and r[1] in self.fi.params:
+                tiers.add('param:' + r[1])
+        return tiers or {'unknown'}
+
     def do_parse_args(self, node, recv):
         w0 = self.site(node, 'parse_args <- ' + self.ix.line(self.cur.rel, node.lineno)[:70])
         if self.S.calls_parse_args is None:
             self.S.calls_parse_args = (w0,)
         for exc in LIB['raises']['<parse_args>']:
             self.raise_exc(exc, 'argparse:parse_args', '', (w0 + '  [argparse: -h / --version exit]',))
+        if self.st is None:
+            return EMPTY
+        # a parser that carries a seeding action on itself seeds before its sub-parsers' actions run (LIBRARY note argparse-order)
+        how = self.parser_seeds(recv)
+        self.st.seeded = seed_then(self.st.seeded, how)
+        self.st.hard = seed_then(self.st.hard, how)
         # parser.error of the repository parser class (CLIParser.error raises CLIError)
         for m in self.ix.methods_by_name.get('error', []):
             self.apply_summary(m, {}, node, note='argparse reports errors through ')
@@ -2268,7 +2381,7 @@ class Interp:
         s = self.fresh(node, 'namespace')
         return AV({(s, ())}, set())
 
-    def do_add_argument(self, node, kwvals):
+    def do_add_argument(self, node, kwvals, recv=None):
         for k in node.keywords:
             if k.arg == 'action' and not isinstance(k.value, ast.Constant):
                 v = kwvals.get('action', EMPTY)
@@ -2278,6 +2391,8 @@ class Interp:
                         ci = self.ix.classes.get(t[6:])
                         if ci is not None and self.ix.is_action_class(ci):
                             self.S.registers.add(ci.cid)
+                            for tier in self.parser_tiers(recv if recv is not None else EMPTY):
+                                self.S.reg_tier.add((ci.cid, tier))
                             found = True
                 if not found:
                     self.S.registers.add('?unresolved:{}:{}:{}'.format(self.cur.rel, node.lineno, ast.unparse(k.value)[:40]))
@@ -2309,13 +2424,22 @@ class Interp:
         meth = name[7:] if name.startswith('method:') else None
         # --- argparse registration
         if meth == 'add_argument':
-            self.do_add_argument(node, kwvals)
+            self.do_add_argument(node, kwvals, recv)
             return EMPTY
+        if meth == 'add_parser':
+            return AV(t={'parsersub'})
+        if meth in ('add_mutually_exclusive_group', 'add_argument_group') and recv is not None:
+            return recv                  # options of a group belong to the parser itself
+        if name.endswith('ArgumentParser'):
+            return AV({(self.fresh(node, 'parser'), ())}, {'parser@{}:{}'.format(self.cur.rel, node.lineno)})
         # --- RNG
         if _lib_in(name, L_RNG_SEED):
             self.st.seeded = True
+            self.st.hard = True
             if self.S.seeds_rng is None:
                 self.S.seeds_rng = w
+            if node.args and isinstance(node.args[0], ast.Name) and node.args[0].id in self.cur.params:
+                self.S.seed_params.add(node.args[0].id)
         elif _lib_in(name, L_RNG_USE):
             self.use_rng(name, w)
         # --- nondeterministic sources
@@ -2730,6 +2854,7 @@ class Analyzer:
         self.overlay = None
         self.ctx_actions = None
         self.ctx_validators = None
+        self.ctx_seed_parsers = None
         self.lambdas = {}
         self.lib_seen = set()
         self.lib_sites = {}
@@ -2842,23 +2967,64 @@ class Analyzer:
         self.rounds += n
 
     # ---- argparse contexts -----------------------------------------------------------------------
-    def context(self, actions, validators):
-        """summaries recomputed with parse_args running exactly these Action classes / validators"""
-        key = (frozenset(actions), frozenset(validators))
+    def context(self, actions, validators, reg_tier=()):
+        """summaries recomputed with parse_args running exactly these Action classes / validators; phase 2 also knows
+        which parser objects seed the RNG while they parse (seed_parsers)"""
+        key = (frozenset(actions), frozenset(validators), frozenset(reg_tier))
         if key not in self._ctx_cache:
             self.overlay = {}
             self.ctx_actions, self.ctx_validators = set(actions), set(validators)
+            self.ctx_seed_parsers = set()
             todo = [self.ix.funcs[fid] for fid, s in self.summ.items() if s.calls_parse_args and fid in self.ix.funcs]
             self.solve(todo)
-            self._ctx_cache[key] = self.overlay
+            sp, why = self.seed_parsers(reg_tier)
+            if sp:
+                self.ctx_seed_parsers = sp
+                self.solve(todo)
+            self._ctx_cache[key] = (self.overlay, sp, why)
             self.overlay = None
-            self.ctx_actions = self.ctx_validators = None
-        return self._ctx_cache[key]
+            self.ctx_actions = self.ctx_validators = self.ctx_seed_parsers = None
+        return self._ctx_cache[key][0]
+
+    def seed_parsers(self, reg_tier):
+        """parser allocation sites X such that (a) an Action registered on X seeds the RNG with the parsed value on every
+        path of its __call__, and (b) no other Action registered on X (or on a parser of unknown identity) uses the RNG,
+        and no type= validator does.  Evaluated with the summaries of the current context."""
+        why = []
+        by_site = {}
+        for (cid, tier) in reg_tier:
+            by_site.setdefault(tier, set()).add(cid)
+
+        def call_summary(cid):
+            ci = self.ix.classes.get(cid)
+            m = self.ix.lookup_method(ci, '__call__') if ci else None
+            return (m, self.summary(m)) if m is not None else (None, BOTTOM)
+        if any(self.summary(self.ix.funcs[v]).uses_rng for v in (self.ctx_validators or ()) if v in self.ix.funcs):
+            return set(), ['a type= validator uses the RNG']
+        out = set()
+        for tier, cids in sorted(by_site.items()):
+            if not tier.startswith('site:'):
+                continue
+            seeders = set()
+            for cid in cids:
+                m, sm = call_summary(cid)
+                # the parsed value is the 4th parameter of Action.__call__(self, parser, namespace, values, ...)
+                if m is not None and sm.exit_hard is True and len(m.params) >= 4 and m.params[3] in sm.seed_params:
+                    seeders.add(cid)
+            if not seeders:
+                continue
+            bad = [cid for cid in (cids | by_site.get('unknown', set())) - seeders if call_summary(cid)[1].uses_rng]
+            if bad:
+                why.append('{}: RNG-using action(s) {} registered on the same parser as the seed action'.format(tier, sorted(bad)))
+                continue
+            out.add(tier[5:])
+            why.append('{}: seed action {} ; other actions on it use no RNG'.format(tier, sorted(seeders)))
+        return out, why
 
     def entry_summary(self, fi):
         base = self.summ[fi.fid]
         acts = {a for a in base.registers if not a.startswith('?')}
-        ov = self.context(acts, base.validators)
+        ov = self.context(acts, base.validators, base.reg_tier)
         return ov.get(fi.fid, base), acts
 
     def all_actions(self):
@@ -3042,7 +3208,10 @@ def check_contract(A, c):
                     else:
                         ob.assumed.append('truthiness guard `{}` on a type={} seed skips only the empty string (not an integer seed)'.format(txt, ty))
         elif kind == 'rng-dominance':
-            for label, w in sorted(S.unseeded.items()):
+            left = dict(S.unseeded)
+            for (p, label), w in S.cond_unseeded.items():
+                left.setdefault(label, w)     # the parser parameter cannot be identified here: not dominated
+            for label, w in sorted(left.items()):
                 fail('rng', 'unseeded-use@' + label.split('.')[-1],
                      'a call that may use the RNG ({}) is not dominated by random.seed(seed)'.format(label), w)
             if c.get('require_exact_guard'):
